@@ -41,9 +41,15 @@ def main():
     try:
         # demonstration files: everything in the mutation dir except patch/meta/TASK
         demos = [f for f in os.listdir(mdir) if f not in ("patch.diff", "meta.json", "TASK.txt")]
-        demo_cmd = meta.get("demo_cmd", "")
+        demo_cmd = meta.get("demo_cmd", "").replace("/tmp/mut_%s" % meta["property"], wt)
         # place demo files where the agent had them: look them up in its worktree
         src_wt = "/tmp/mut_%s" % meta["property"]
+        rc, o = sh("git apply %s" % patch, cwd=wt)
+        out["confirmation"]["patch_applies"] = rc == 0
+        rc, o = sh("cargo test --offline --workspace --no-fail-fast 2>&1 | grep -E 'test result|FAILED|^error' | sort | uniq -c", cwd=wt)
+        suite_ok = "FAILED" not in o and "error" not in o and "test result: ok" in o
+        out["confirmation"]["suite_passes_with_patch"] = suite_ok
+        out["confirmation"]["suite_summary"] = o[-600:]
         placed = []
         for f in demos:
             rc, o = sh("cd %s && git ls-files --others --exclude-standard | grep -F '%s' | head -1" % (src_wt, f))
@@ -53,12 +59,6 @@ def main():
                 shutil.copy(os.path.join(mdir, f), os.path.join(wt, rel))
                 placed.append(rel)
         out["confirmation"]["demo_files"] = placed
-        rc, o = sh("git apply %s" % patch, cwd=wt)
-        out["confirmation"]["patch_applies"] = rc == 0
-        rc, o = sh("cargo test --offline --workspace --no-fail-fast -- --skip demo_ 2>&1 | grep -E 'test result|FAILED|^error' | sort | uniq -c", cwd=wt)
-        suite_ok = "FAILED" not in o and "error" not in o and "test result: ok" in o
-        out["confirmation"]["suite_passes_with_patch"] = suite_ok
-        out["confirmation"]["suite_summary"] = o[-600:]
         rc1, o1 = sh(demo_cmd, cwd=wt)
         out["confirmation"]["demo_fails_with_patch"] = rc1 != 0
         sh("git apply -R %s" % patch, cwd=wt)
